@@ -524,9 +524,8 @@ func main() {
 	debug.SetGCPercent(400)
 	workRoot = filepath.Join(vx.Root(), ".work", "c01", fmt.Sprintf("run-%d", os.Getpid()))
 	os.MkdirAll(workRoot, 0o755)
-	defer os.RemoveAll(workRoot)
 	r.DistinctSet = "outcomes"
-	r.Rule = "BFS over all histories of write batches (non-empty values v1/v2 over a colliding key alphabet with the empty key, binary keys and shared prefixes; batch sizes 1..3) chained root to root on the real mavl Store; a state = (list of committed roots, raw database content). After every batch and for every root committed so far: Store.Get of every alphabet key, Store.IterateRangeByStateHash for every start,end in alphabet+nil and both directions, Tree.Size, AVL invariants; all repeated after a restart (memdb: new Store object + caches dropped; goleveldb: close and reopen). Plus the deterministic large-batch family (N keys x 4 insertion orders x batch sizes {2N keys at once, 16, 1}, then overwritten in another order). distinct = rebalancing cases (LL/LR/RR/RL/none/overwrite depth), batch sizes, old-root-differs classes, large-tree heights observed"
+	r.Rule = "BFS over all histories of write batches (non-empty values v1/v2 over a colliding key alphabet with the empty key, binary keys and shared prefixes; batch sizes 1..3) chained root to root on the real mavl Store; a state = (list of committed roots, raw database content). After every batch and for every root committed so far: Store.Get of every alphabet key, both unbounded scans, Tree.Size, AVL invariants, and for the newest root Store.IterateRangeByStateHash for every start,end in alphabet+nil in both directions; all repeated after a restart (memdb: new Store object + caches dropped; goleveldb: close and reopen). Plus the deterministic large-batch family (N keys x 4 insertion orders x batch sizes {2N keys at once, 16, 1}, then overwritten in another order). distinct = rebalancing cases (LL/LR/RR/RL/none/overwrite depth), batch sizes, old-root-differs classes, large-tree heights observed"
 	r.Assume = []string{"values are non-empty (an empty value and 'nothing' are both nil through Store.Get)", "histories contain writes only (the store API has no delete)", "sha256 collisions do not occur", "large family: older roots are re-read in full at checkpoints (every root by point reads while <=40 roots, every 64th batch beyond), not after every single batch"}
 
 	k5 := []string{"", "a", "ab", "a\xff", "b"}
@@ -594,6 +593,7 @@ func main() {
 		} else {
 			fmt.Println("replay: ok")
 		}
+		os.RemoveAll(workRoot)
 		r.Finish()
 	}
 
@@ -627,5 +627,6 @@ func main() {
 			}
 		}
 	}
+	os.RemoveAll(workRoot)
 	r.Finish()
 }
